@@ -8,7 +8,7 @@
    entity) and by moving an entity between archetypes. *)
 From Coq Require Import List NArith Bool Lia Permutation.
 Import ListNotations.
-Require Import EV.Base EV.ListN EV.Access EV.Query EV.SlotMap EV.Reserve EV.HList EV.Loop EV.World EV.SlotMapGet.
+Require Import EV.Base EV.ListN EV.Access EV.Query EV.SlotMap EV.Reserve EV.HList EV.Loop EV.World EV.SlotMapGet EV.ArchProofs.
 Open Scope N_scope.
 
 Definition arch_at (w : world) (ai : N) : option arch := slab_get (w_archs w) ai.
@@ -319,4 +319,279 @@ Proof.
       unfold upd_by_index. destruct (sget (slots ents') (fst de)) as [s|] eqn:Es; [|exact Hg].
       destruct (val s) eqn:Ev; [|exact Hg]. unfold sm_get. cbn [slots]. rewrite Ei. erewrite sget_supd_eq by eauto. cbn [gen val].
       unfold sm_get in Hg. rewrite Ei, Es in Hg. destruct (gen s =? snd k); [congruence|reflexivity].
+Qed.
+
+(* ---------- moving a row to another archetype (archetype.rs:378-503) ---------- *)
+Section MoveRow.
+Variables (w : world) (sai srow dst : N) (sa da : arch) (e : key) (vals dvals : list cval) (cap' ep' : N).
+Hypothesis Hinv : StoreInv w.
+Hypothesis Hsa : arch_at w sai = Some sa.
+Hypothesis Hda : arch_at w dst = Some da.
+Hypothesis Hne : sai <> dst.
+Hypothesis Hrow : nget (a_rows sa) srow = Some (e, vals).
+Hypothesis Hdlen : length dvals = length (a_comps da).
+
+Local Notation sa1 := (set_rows sa (swap_remove (a_rows sa) srow)).
+Local Notation da2 := (set_rows (set_cap da cap' ep') (a_rows da ++ [(e, dvals)])).
+Local Notation archs' := (slab_set (slab_set (w_archs w) sai sa1) dst da2).
+Local Notation ents1 := (upd_by_index (w_ents w) (fst e) (fun _ => (dst, nlen (a_rows da)))).
+
+Definition move_row_result : world :=
+  let w2 := set_ents (set_archs w archs') ents1 in
+  match nget (a_rows sa1) srow with
+  | Some (se, _) => set_ents w2 (upd_by_index ents1 (fst se) (fun l => (fst l, srow)))
+  | None => w2
+  end.
+
+Lemma move_arch_at j : slab_get archs' j = if j =? dst then Some da2 else if j =? sai then Some sa1 else arch_at w j.
+Proof.
+  destruct (j =? dst) eqn:E1.
+  - apply N.eqb_eq in E1. subst j. eapply slab_get_set_eq. rewrite slab_get_set_neq by exact Hne. exact Hda.
+  - apply N.eqb_neq in E1. rewrite slab_get_set_neq by auto. destruct (j =? sai) eqn:E2.
+    + apply N.eqb_eq in E2. subst j. eapply slab_get_set_eq. exact Hsa.
+    + apply N.eqb_neq in E2. now rewrite slab_get_set_neq by auto.
+Qed.
+
+Lemma move_row_inv : StoreInv move_row_result.
+Proof.
+  destruct Hinv as (Hsm & Hl & Hr).
+  assert (Hge : sm_get e (w_ents w) = Some (sai, srow)) by exact (proj1 (Hr _ _ _ _ _ Hsa Hrow)).
+  assert (Hsm1 : SmInv ents1) by (eapply upd_inv; eauto).
+  assert (Hge1 : sm_get e ents1 = Some (dst, nlen (a_rows da))) by (rewrite (upd_get_eq (w_ents w) e _ _ Hge); reflexivity).
+  assert (Hoth1 : forall k, k <> e -> sm_get k ents1 = sm_get k (w_ents w)).
+  { intros k Hk. destruct (N.eq_dec (fst k) (fst e)) as [Ei|Ei].
+    - rewrite (upd_get_same_index (w_ents w) e _ k _ Hge Ei Hk).
+      destruct (sm_get k (w_ents w)) eqn:Hgk; [|reflexivity]. exfalso. apply Hk. eapply live_same_index; eauto.
+    - now rewrite upd_get_neq. }
+  assert (Hrlt : srow < nlen (a_rows sa)) by (eapply nget_some_lt; eauto).
+  assert (Hdrows : a_rows da2 = a_rows da ++ [(e, dvals)]) by reflexivity.
+  assert (Hdcomps : a_comps da2 = a_comps da) by reflexivity.
+  (* rows of the destination *)
+  assert (Hdst_new : nget (a_rows da2) (nlen (a_rows da)) = Some (e, dvals)) by (rewrite Hdrows; apply nget_snoc_last).
+  assert (Hdst_old : forall j x, nget (a_rows da) j = Some x -> nget (a_rows da2) j = Some x).
+  { intros j x Hj. rewrite Hdrows, nget_app_l; [exact Hj|eapply nget_some_lt; eauto]. }
+  assert (Hdst_inv : forall j x, nget (a_rows da2) j = Some x -> (j = nlen (a_rows da) /\ x = (e, dvals)) \/ nget (a_rows da) j = Some x).
+  { intros j x Hj. rewrite Hdrows in Hj. destruct (N.lt_ge_cases j (nlen (a_rows da))) as [L|G].
+    - right. now rewrite nget_app_l in Hj.
+    - rewrite nget_app_r in Hj by exact G. left. destruct (j - nlen (a_rows da) =? 0) eqn:Z.
+      + apply N.eqb_eq in Z. cbn [nget] in Hj. rewrite Z in Hj. cbn in Hj. inversion Hj. split; [lia|reflexivity].
+      + cbn [nget] in Hj. rewrite Z in Hj. discriminate. }
+  (* e is not in the destination yet, and not elsewhere in the source *)
+  assert (He_notdst : forall j x, nget (a_rows da) j = Some (e, x) -> False).
+  { intros j x Hj. destruct (Hr _ _ _ _ _ Hda Hj) as [Hg _]. rewrite Hge in Hg. inversion Hg. congruence. }
+  destruct (a_rows sa) as [|lastrow pre] eqn:Erows using rev_ind; [rewrite nlen_nil in Hrlt; lia|]. clear IHpre.
+  rewrite nlen_app in Hrlt. change (nlen [lastrow]) with 1 in Hrlt.
+  unfold move_row_result.
+  destruct (N.eq_dec srow (nlen pre)) as [Elast|Enl].
+  - (* e was the last row of the source *)
+    assert (Hr1 : a_rows sa1 = pre) by (cbn [a_rows set_rows]; rewrite Erows, swap_remove_snoc, Elast, N.eqb_refl; reflexivity).
+    assert (Hnone : nget (a_rows sa1) srow = None) by (rewrite Hr1; apply nget_ge_none; lia). rewrite Hnone.
+    assert (He : (e, vals) = lastrow) by (rewrite Elast, nget_snoc_last in Hrow; now inversion Hrow).
+    unfold StoreInv, arch_at. cbn [w_ents w_archs set_ents set_archs]. split; [exact Hsm1|]. split.
+    + intros k aj rj Hk. destruct (key_eq_dec k e) as [->|Hke].
+      * rewrite Hge1 in Hk. inversion Hk; subst aj rj. rewrite move_arch_at, N.eqb_refl. eauto.
+      * rewrite (Hoth1 k Hke) in Hk. destruct (Hl _ _ _ Hk) as (b & vb & Hb & Hnb). rewrite move_arch_at.
+        destruct (aj =? dst) eqn:E1.
+        -- apply N.eqb_eq in E1. subst aj. rewrite Hda in Hb. inversion Hb; subst b. exists da2, vb. split; [reflexivity|]. now apply Hdst_old.
+        -- destruct (aj =? sai) eqn:E2; [|eauto]. apply N.eqb_eq in E2. subst aj. rewrite Hsa in Hb. inversion Hb; subst b.
+           exists sa1, vb. split; [reflexivity|]. rewrite Hr1. rewrite Erows in Hnb.
+           destruct (N.lt_ge_cases rj (nlen pre)) as [L|G]; [now rewrite nget_app_l in Hnb|].
+           exfalso. assert (rj = nlen pre) by (apply nget_some_lt in Hnb; rewrite nlen_app in Hnb; change (nlen [lastrow]) with 1 in Hnb; lia).
+           subst rj. rewrite nget_snoc_last, <- He in Hnb. inversion Hnb; subst. now apply Hke.
+    + intros aj b rj k vk Hb Hnk. rewrite move_arch_at in Hb. destruct (aj =? dst) eqn:E1.
+      * apply N.eqb_eq in E1. subst aj. inversion Hb; subst b. destruct (Hdst_inv _ _ Hnk) as [[-> Hx]|Hold].
+        -- inversion Hx; subst k vk. split; [exact Hge1|exact Hdlen].
+        -- destruct (Hr _ _ _ _ _ Hda Hold) as [Hgk Hlen]. split; [|exact Hlen].
+           assert (Hke : k <> e) by (intros ->; eapply He_notdst; eauto). now rewrite (Hoth1 k Hke).
+      * destruct (aj =? sai) eqn:E2.
+        -- apply N.eqb_eq in E2. subst aj. inversion Hb; subst b. rewrite Hr1 in Hnk.
+           assert (Hold : nget (a_rows sa) rj = Some (k, vk)) by (rewrite Erows, nget_app_l; [exact Hnk|eapply nget_some_lt; eauto]).
+           destruct (Hr _ _ _ _ _ Hsa Hold) as [Hgk Hlen]. split; [|exact Hlen].
+           assert (Hke : k <> e). { intros ->. rewrite Hge in Hgk. inversion Hgk. apply nget_some_lt in Hnk. lia. }
+           now rewrite (Hoth1 k Hke).
+        -- destruct (Hr _ _ _ _ _ Hb Hnk) as [Hgk Hlen]. split; [|exact Hlen].
+           assert (Hke : k <> e). { intros ->. rewrite Hge in Hgk. inversion Hgk. apply N.eqb_neq in E2. congruence. }
+           now rewrite (Hoth1 k Hke).
+  - (* the last row of the source is swapped into the hole *)
+    destruct lastrow as [se svals].
+    assert (Hrowlt : srow < nlen pre) by lia.
+    assert (Hr1 : a_rows sa1 = nset pre srow (se, svals)).
+    { cbn [a_rows set_rows]. rewrite Erows, swap_remove_snoc. replace (srow =? nlen pre) with false by (symmetry; apply N.eqb_neq; exact Enl). reflexivity. }
+    assert (Hat : nget (a_rows sa1) srow = Some (se, svals)) by (rewrite Hr1; apply nget_nset_eq; exact Hrowlt). rewrite Hat.
+    assert (Hlastold : nget (a_rows sa) (nlen pre) = Some (se, svals)) by (rewrite Erows; apply nget_snoc_last).
+    destruct (Hr _ _ _ _ _ Hsa Hlastold) as [Hgse Hlense].
+    assert (Hsee : se <> e). { intros ->. rewrite Hge in Hgse. inversion Hgse. lia. }
+    assert (Hgse1 : sm_get se ents1 = Some (sai, nlen pre)) by now rewrite (Hoth1 se Hsee).
+    assert (Hidx : fst se <> fst e). { intros Ef. apply Hsee. eapply live_same_index; eauto. }
+    unfold StoreInv, arch_at. cbn [w_ents w_archs set_ents set_archs]. split; [eapply upd_inv; eauto|]. split.
+    + intros k aj rj Hk. destruct (N.eq_dec (fst k) (fst se)) as [Ei|Ei].
+      * destruct (key_eq_dec k se) as [->|Hkd].
+        -- rewrite (upd_get_eq ents1 se _ _ Hgse1) in Hk. cbn [fst] in Hk. inversion Hk; subst aj rj.
+           rewrite move_arch_at. replace (sai =? dst) with false by (symmetry; apply N.eqb_neq; exact Hne). rewrite N.eqb_refl. eauto.
+        -- rewrite (upd_get_same_index ents1 se _ k _ Hgse1 Ei Hkd) in Hk. discriminate.
+      * rewrite upd_get_neq in Hk by exact Ei. destruct (key_eq_dec k e) as [->|Hke].
+        -- rewrite Hge1 in Hk. inversion Hk; subst aj rj. rewrite move_arch_at, N.eqb_refl. eauto.
+        -- rewrite (Hoth1 k Hke) in Hk. destruct (Hl _ _ _ Hk) as (b & vb & Hb & Hnb). rewrite move_arch_at.
+           destruct (aj =? dst) eqn:E1.
+           ++ apply N.eqb_eq in E1. subst aj. rewrite Hda in Hb. inversion Hb; subst b. exists da2, vb. split; [reflexivity|]. now apply Hdst_old.
+           ++ destruct (aj =? sai) eqn:E2; [|eauto]. apply N.eqb_eq in E2. subst aj. rewrite Hsa in Hb. inversion Hb; subst b.
+              exists sa1, vb. split; [reflexivity|]. rewrite Hr1. rewrite Erows in Hnb.
+              assert (Hrj : rj <> srow). { intros ->. rewrite Hrow in Hnb. inversion Hnb; subst. now apply Hke. }
+              rewrite nget_nset_neq by auto.
+              destruct (N.lt_ge_cases rj (nlen pre)) as [L|G]; [now rewrite nget_app_l in Hnb|].
+              exfalso. assert (rj = nlen pre) by (apply nget_some_lt in Hnb; rewrite nlen_app in Hnb; change (nlen [(se, svals)]) with 1 in Hnb; lia).
+              subst rj. rewrite nget_snoc_last in Hnb. inversion Hnb; subst. now apply Ei.
+    + intros aj b rj k vk Hb Hnk. rewrite move_arch_at in Hb. destruct (aj =? dst) eqn:E1.
+      * apply N.eqb_eq in E1. subst aj. inversion Hb; subst b. destruct (Hdst_inv _ _ Hnk) as [[-> Hx]|Hold].
+        -- inversion Hx; subst k vk. split; [|exact Hdlen]. rewrite upd_get_neq by (intros X; apply Hidx; now symmetry). exact Hge1.
+        -- destruct (Hr _ _ _ _ _ Hda Hold) as [Hgk Hlen]. split; [|exact Hlen].
+           assert (Hke : k <> e) by (intros ->; eapply He_notdst; eauto).
+           assert (Hkd : fst k <> fst se). { intros Ef. assert (k = se) by (eapply live_same_index; eauto). subst k. rewrite Hgse in Hgk. inversion Hgk. congruence. }
+           rewrite upd_get_neq by exact Hkd. now rewrite (Hoth1 k Hke).
+      * destruct (aj =? sai) eqn:E2.
+        -- apply N.eqb_eq in E2. subst aj. inversion Hb; subst b. rewrite Hr1 in Hnk.
+           destruct (N.eq_dec rj srow) as [->|Hrj].
+           ++ rewrite nget_nset_eq in Hnk by exact Hrowlt. inversion Hnk; subst k vk. split; [|exact Hlense].
+              now rewrite (upd_get_eq ents1 se _ _ Hgse1).
+           ++ rewrite nget_nset_neq in Hnk by auto.
+              assert (Hold : nget (a_rows sa) rj = Some (k, vk)) by (rewrite Erows, nget_app_l; [exact Hnk|eapply nget_some_lt; eauto]).
+              destruct (Hr _ _ _ _ _ Hsa Hold) as [Hgk Hlen]. split; [|exact Hlen].
+              assert (Hke : k <> e). { intros ->. rewrite Hge in Hgk. inversion Hgk. congruence. }
+              assert (Hkd : fst k <> fst se).
+              { intros Ef. assert (k = se) by (eapply live_same_index; eauto). subst k. rewrite Hgse in Hgk. inversion Hgk. apply nget_some_lt in Hnk. lia. }
+              rewrite upd_get_neq by exact Hkd. now rewrite (Hoth1 k Hke).
+        -- destruct (Hr _ _ _ _ _ Hb Hnk) as [Hgk Hlen]. split; [|exact Hlen].
+           assert (Hke : k <> e). { intros ->. rewrite Hge in Hgk. inversion Hgk. apply N.eqb_neq in E2. congruence. }
+           assert (Hkd : fst k <> fst se).
+           { intros Ef. assert (k = se) by (eapply live_same_index; eauto). subst k. rewrite Hgse in Hgk. inversion Hgk. apply N.eqb_neq in E2. congruence. }
+           rewrite upd_get_neq by exact Hkd. now rewrite (Hoth1 k Hke).
+Qed.
+
+(* every other row survives, in the same archetype, with the same values; the moved entity is
+   the new last row of the destination *)
+Lemma move_row_keeps_others : forall k aj rj b vb, k <> e ->
+  arch_at w aj = Some b -> nget (a_rows b) rj = Some (k, vb) ->
+  exists rj' b', arch_at move_row_result aj = Some b' /\ a_comps b' = a_comps b /\ nget (a_rows b') rj' = Some (k, vb).
+Proof.
+  intros k aj rj b vb Hke Hb Hnb.
+  assert (Hres : w_archs move_row_result = archs').
+  { unfold move_row_result. destruct (nget (a_rows sa1) srow) as [[se sv]|]; reflexivity. }
+  assert (Hat : forall j, arch_at move_row_result j = slab_get archs' j) by (intros j; unfold arch_at; now rewrite Hres).
+  setoid_rewrite Hat. rewrite move_arch_at. destruct (aj =? dst) eqn:E1.
+  - apply N.eqb_eq in E1. subst aj. rewrite Hda in Hb. inversion Hb; subst b.
+    exists rj, da2. split; [reflexivity|]. split; [reflexivity|]. cbn [a_rows set_rows]. rewrite nget_app_l; [exact Hnb|eapply nget_some_lt; eauto].
+  - destruct (aj =? sai) eqn:E2; [|eauto]. apply N.eqb_eq in E2. subst aj. rewrite Hsa in Hb. inversion Hb; subst b.
+    assert (Hrlt : srow < nlen (a_rows sa)) by (eapply nget_some_lt; eauto).
+    destruct (a_rows sa) as [|lastrow pre] eqn:Erows using rev_ind; [rewrite nlen_nil in Hrlt; lia|]. clear IHpre.
+    rewrite nlen_app in Hrlt. change (nlen [lastrow]) with 1 in Hrlt.
+    assert (Hrj : rj <> srow). { intros ->. rewrite Hrow in Hnb. inversion Hnb. now apply Hke. }
+    destruct (N.lt_ge_cases rj (nlen pre)) as [L|G].
+    + eexists rj, _. split; [reflexivity|]. split; [reflexivity|]. cbn [a_rows set_rows]. rewrite ?Erows.
+      rewrite nget_swap_remove by lia. replace (rj =? srow) with false by (symmetry; apply N.eqb_neq; exact Hrj).
+      replace (rj <? nlen pre) with true by (symmetry; apply N.ltb_lt; exact L). now rewrite nget_app_l in Hnb.
+    + assert (rj = nlen pre) by (apply nget_some_lt in Hnb; rewrite nlen_app in Hnb; change (nlen [lastrow]) with 1 in Hnb; lia). subst rj.
+      rewrite nget_snoc_last in Hnb. inversion Hnb; subst lastrow.
+      eexists srow, _. split; [reflexivity|]. split; [reflexivity|]. cbn [a_rows set_rows]. rewrite ?Erows.
+      rewrite nget_swap_remove by lia. rewrite N.eqb_refl. replace (srow =? nlen pre) with false by (symmetry; apply N.eqb_neq; lia). reflexivity.
+Qed.
+
+Lemma move_row_moved : arch_at move_row_result dst = Some da2 /\ nget (a_rows da2) (nlen (a_rows da)) = Some (e, dvals).
+Proof.
+  assert (Hres : w_archs move_row_result = archs').
+  { unfold move_row_result. destruct (nget (a_rows sa1) srow) as [[se sv]|]; reflexivity. }
+  unfold arch_at. rewrite Hres, move_arch_at, N.eqb_refl. split; [reflexivity|]. cbn [a_rows set_rows]. apply nget_snoc_last.
+Qed.
+End MoveRow.
+
+Lemma swap_remove_displaced {A} (l : list A) i x : i < nlen l -> nget (swap_remove l i) i = Some x ->
+  nget l (nlen l - 1) = Some x /\ i <> nlen l - 1.
+Proof.
+  intros Hlt H. destruct l as [|lastx pre] using rev_ind; [rewrite nlen_nil in Hlt; lia|]. clear IHpre.
+  rewrite nlen_app in *. change (nlen [lastx]) with 1 in *. rewrite nget_swap_remove, N.eqb_refl in H by lia.
+  destruct (i =? nlen pre) eqn:E; [discriminate|]. apply N.eqb_neq in E. inversion H; subst.
+  replace (nlen pre + 1 - 1) with (nlen pre) by lia. split; [apply nget_snoc_last|exact E].
+Qed.
+
+Lemma set_cap_eta a : set_cap a (a_cap a) (a_epoch a) = a. Proof. now destruct a. Qed.
+
+(* C02 / C17 / C01 for the archetype move behind Insert and Remove: on a consistent store, when
+   the column walk succeeds, move_entity succeeds (no unchecked step fails), keeps the store
+   consistent, leaves every component of every other entity as it was, and stores the walk's
+   destination values for the moved entity in the destination archetype *)
+Theorem move_entity_ok w sai srow dst sa da e vals nw dvals killed :
+  StoreInv w -> arch_at w sai = Some sa -> arch_at w dst = Some da -> sai <> dst ->
+  nget (a_rows sa) srow = Some (e, vals) ->
+  merge_row (S (length (a_comps sa) + length (a_comps da))) (a_comps sa) vals (a_comps da) nw = Some (dvals, killed) ->
+  exists w', move_entity w (sai, srow) dst nw = ROk tt w' /\ StoreInv w' /\
+             (forall k c, k <> e -> abs w' k c = abs w k c) /\
+             (forall c, abs w' e c = row_col da dvals c).
+Proof.
+  intros Hinv Hsa Hda Hne Hrow Hmerge. pose proof Hinv as (Hsm & Hl & Hr).
+  assert (Hvlen : length vals = length (a_comps sa)) by exact (proj2 (Hr _ _ _ _ _ Hsa Hrow)).
+  pose proof (merge_row_conserves_len _ _ _ _ _ _ _ Hvlen Hmerge) as Hdlen.
+  assert (Hge : sm_get e (w_ents w) = Some (sai, srow)) by exact (proj1 (Hr _ _ _ _ _ Hsa Hrow)).
+  unfold move_entity. unfold arch_at in Hsa, Hda. rewrite Hsa. replace (sai =? dst) with false by (symmetry; apply N.eqb_neq; exact Hne).
+  rewrite Hda, Hrow.
+  (* reserve_one only changes capacity and epoch *)
+  assert (Hres : exists cap' ep' re, reserve_one da = (set_cap da cap' ep', re)).
+  { unfold reserve_one. destruct (nlen (a_rows da) =? a_cap da); [eauto|]. exists (a_cap da), (a_epoch da), false. now rewrite set_cap_eta. }
+  destruct Hres as (cap' & ep' & re & ->). rewrite Hmerge.
+  set (w1 := fold_left _ killed w).
+  assert (E1 : w_ents w1 = w_ents w) by apply drops_fold_ents.
+  assert (A1 : w_archs w1 = w_archs w) by apply drops_fold_archs.
+  set (R := move_row_result w sai srow dst sa da e dvals cap' ep').
+  pose proof (move_row_inv w sai srow dst sa da e vals dvals cap' ep' Hinv Hsa Hda Hne Hrow Hdlen) as HinvR. fold R in HinvR.
+  cbn [a_rows set_cap set_rows]. rewrite A1.
+  set (sa1 := set_rows sa (swap_remove (a_rows sa) srow)).
+  set (da2 := set_rows (set_cap da cap' ep') (a_rows da ++ [(e, dvals)])).
+  set (w2 := set_archs w1 (slab_set (slab_set (w_archs w) sai sa1) dst da2)).
+  assert (Hloc1 : set_loc w2 e (dst, nlen (a_rows da)) = ROk tt (set_ents w2 (upd_by_index (w_ents w) (fst e) (fun _ => (dst, nlen (a_rows da)))))).
+  { unfold set_loc. unfold w2 at 1. cbn [w_ents set_archs]. rewrite E1, Hge. unfold w2 at 2. cbn [w_ents set_archs]. now rewrite E1. }
+  rewrite Hloc1. cbn [rbind].
+  set (ents1 := upd_by_index (w_ents w) (fst e) (fun _ => (dst, nlen (a_rows da)))).
+  set (w3 := set_ents w2 ents1).
+  assert (Hfin : exists w4, (match nget (swap_remove (a_rows sa) srow) srow with
+                             | Some (se, _) => match sm_get se (w_ents w3) with
+                                               | Some l => set_loc w3 se (fst l, srow)
+                                               | None => RFail (FUB 488) w3 end
+                             | None => ROk tt w3 end) = ROk tt w4 /\ w_ents w4 = w_ents R /\ w_archs w4 = w_archs R).
+  { unfold R, move_row_result. fold sa1 da2 ents1. change (a_rows sa1) with (swap_remove (a_rows sa) srow).
+    destruct (nget (swap_remove (a_rows sa) srow) srow) as [[se sv]|] eqn:Ed.
+    - assert (Hlt : srow < nlen (a_rows sa)) by (eapply nget_some_lt; eauto).
+      destruct (swap_remove_displaced _ _ _ Hlt Ed) as [Hlast Hnl].
+      destruct (Hr _ _ _ _ _ Hsa Hlast) as [Hgse _].
+      assert (Hsee : se <> e). { intros ->. rewrite Hge in Hgse. inversion Hgse. lia. }
+      assert (Hidx : fst se <> fst e). { intros Ef. apply Hsee. eapply live_same_index; eauto. }
+      assert (Hgse1 : sm_get se ents1 = Some (sai, nlen (a_rows sa) - 1)) by (unfold ents1; now rewrite upd_get_neq).
+      cbn [w_ents set_ents]. change (w_ents w3) with ents1. rewrite Hgse1. unfold set_loc. change (w_ents w3) with ents1. rewrite Hgse1.
+      eexists. split; [reflexivity|]. cbn [w_ents w_archs set_ents set_archs fst]. split; [|reflexivity].
+      apply upd_by_index_ext. intros s v Hs Hv. destruct (sm_get_some_inv _ _ _ Hgse1) as (s' & Hs' & _ & Hv'). rewrite Hs in Hs'. inversion Hs'; subst.
+      rewrite Hv in Hv'. inversion Hv'; subst. reflexivity.
+    - exists w3. split; [reflexivity|]. split; reflexivity. }
+  destruct Hfin as (w4 & -> & E4 & A4). cbn [rbind].
+  eexists. split; [reflexivity|].
+  match goal with |- StoreInv ?x /\ _ => set (wf := x) end.
+  assert (Ef : w_ents wf = w_ents R).
+  { unfold wf. repeat match goal with |- context [if ?b then _ else _] => destruct b end; rewrite ?notify_refresh_ents, ?notify_remove_ents; exact E4. }
+  assert (Af : w_archs wf = w_archs R).
+  { unfold wf. repeat match goal with |- context [if ?b then _ else _] => destruct b end; rewrite ?notify_refresh_archs, ?notify_remove_archs; exact A4. }
+  assert (Hinvf : StoreInv wf) by (eapply StoreInv_ext; eauto).
+  split; [exact Hinvf|]. split.
+  - intros k c Hke. destruct (sm_get k (w_ents w)) as [[aj rj]|] eqn:Hgk.
+    + destruct (Hl _ _ _ Hgk) as (b & vb & Hb & Hnb).
+      destruct (move_row_keeps_others w sai srow dst sa da e vals dvals cap' ep' Hsa Hda Hne Hrow Hdlen k aj rj b vb Hke Hb Hnb) as (rj' & b' & Hb' & Hc' & Hn').
+      fold R in Hb'. unfold arch_at in Hb'. rewrite <- Af in Hb'.
+      rewrite (abs_of_row wf aj b' rj' k vb c Hinvf Hb' Hn'), (abs_of_row w aj b rj k vb c Hinv Hb Hnb). now apply row_col_comps.
+    + rewrite (abs_dead w k c Hgk). apply abs_dead. rewrite Ef. unfold R, move_row_result. fold sa1 ents1.
+      assert (Hg1 : sm_get k ents1 = None).
+      { unfold ents1. destruct (N.eq_dec (fst k) (fst e)) as [Ei|Ei]; [|now rewrite upd_get_neq].
+        exact (upd_get_same_index (w_ents w) e _ k _ Hge Ei Hke). }
+      destruct (nget (a_rows sa1) srow) as [[se sv]|] eqn:Ed; cbn [w_ents set_ents]; [|exact Hg1].
+      destruct (N.eq_dec (fst k) (fst se)) as [Ei|Ei]; [|now rewrite upd_get_neq].
+      unfold upd_by_index. destruct (sget (slots ents1) (fst se)) as [s|] eqn:Es; [|exact Hg1].
+      destruct (val s) eqn:Ev; [|exact Hg1]. unfold sm_get. cbn [slots]. rewrite Ei. erewrite sget_supd_eq by eauto. cbn [gen val].
+      unfold sm_get in Hg1. rewrite Ei, Es in Hg1. destruct (gen s =? snd k); [congruence|reflexivity].
+  - intros c. destruct (move_row_moved w sai srow dst sa da e dvals cap' ep' Hsa Hda Hne) as [Hb' Hn']. fold R in Hb'.
+    unfold arch_at in Hb'. rewrite <- Af in Hb'.
+    rewrite (abs_of_row wf dst _ _ e dvals c Hinvf Hb' Hn'). apply row_col_comps. reflexivity.
 Qed.
